@@ -571,7 +571,7 @@ func run(c *vf.Ctx) {
 			}
 			if rp.InPkg == 2 {
 				anchoredRaces++
-				c.Violation("race:throttler:"+rp.Key, fmt.Sprintf("data race inside package store/throttler (%d reports): %s <-> %s", rp.Count, top(rp.StackA), top(rp.StackB)), rp)
+				c.Violation("race:throttler:"+rp.Pair, fmt.Sprintf("data race inside package store/throttler (%d reports): %s <-> %s", rp.Count, top(rp.StackA), top(rp.StackB)), rp)
 			} else {
 				otherRaces++
 				if len(otherList) < 5 {
